@@ -28,6 +28,8 @@ type input struct {
 	N     int    `json:"n,omitempty"` // multi / shrink: number of same-type messages in ONE port buffer
 	At    int    `json:"at,omitempty"`    // harvest: after this many engine events
 	Which int    `json:"which,omitempty"` // harvest: which component of the assembly
+	// route 3: seed of the State the rebuilt component holds BEFORE LoadCheckpoint (0 = zero State)
+	Prior uint64 `json:"prior,omitempty"`
 }
 
 type obs struct {
@@ -448,7 +450,12 @@ func run(raw json.RawMessage) (hx.Case, error) {
 		case 2:
 			out, err = viaEngine(v)
 		case 3:
-			out, err = e.Via(v)
+			var prior reflect.Value
+			if in.Prior != 0 {
+				// a different, populated value of the same State type (maps and slices non-empty)
+				prior = jm.Rand(hx.NewRand(in.Prior), e.Type, jm.Opts{MaxLen: 3})
+			}
+			out, err = e.Via(v, prior)
 		default:
 			out, doc, err = viaJSON(v)
 		}
@@ -490,6 +497,9 @@ func run(raw json.RawMessage) (hx.Case, error) {
 		c.Known = "invalid_utf8_string"
 	}
 	c.Tags = []string{"kind:" + e.Kind, fmt.Sprintf("route:%d", in.Route), "mode:" + in.Mode}
+	if in.Prior != 0 {
+		c.Tags = append(c.Tags, "load-into:populated-state")
+	}
 	if o.Err != "" {
 		c.Tags = append(c.Tags, "outcome:error")
 	} else if o.Same {
@@ -526,6 +536,11 @@ func gen(r *hx.Rand, tier string) []json.RawMessage {
 			for i := 0; i < k; i++ {
 				add(input{Type: e.Name, Route: rt, Mode: "rand", Seed: r.U64()})
 			}
+			if rt == 3 { // load into a rebuilt component whose State is already populated
+				for _, m := range []string{"zero", "empty", "rand", "rand"} {
+					add(input{Type: e.Name, Route: 3, Mode: m, Seed: r.U64(), Prior: 1 + r.U64()>>1})
+				}
+			}
 		}
 		// several messages of ONE type in ONE port buffer (a buffer is one EncodeSlice /
 		// DecodeSlice): random ones, and ones whose slice fields get shorter message by message
@@ -550,7 +565,11 @@ func gen(r *hx.Rand, tier string) []json.RawMessage {
 		nh = 400
 	}
 	for i := 0; i < nh; i++ {
-		add(input{Mode: "harvest", Route: []int{0, 3}[i%2], Seed: r.U64(), At: 1 + r.Intn(400), Which: r.Intn(8)})
+		in := input{Mode: "harvest", Route: []int{0, 3}[i%2], Seed: r.U64(), At: 1 + r.Intn(400), Which: r.Intn(8)}
+		if i%4 == 3 {
+			in.Prior = 1 + r.U64()>>1
+		}
+		add(in)
 	}
 	return out
 }
@@ -584,7 +603,7 @@ func init() {
 			"State types): the zero value, a value with every slice/map empty-but-non-nil, one with every slice/map nil, and random values " +
 			"(nil/empty/non-empty slices and maps, extreme integers, multi-byte and control-character strings, random bytes) through " +
 			"json.Marshal/Unmarshal (the document itself is compared with the model) and through the real port checkpoint (messages), " +
-			"serial-engine checkpoint (events) and modeling.Component checkpoint (States); for every message type also 2-5 messages of " +
+			"serial-engine checkpoint (events) and modeling.Component checkpoint (States; loaded both into a freshly built component and into a rebuilt one whose State is already populated with another value - LoadCheckpoint must replace, not merge); for every message type also 2-5 messages of " +
 			"that type in ONE port buffer (random, and with slice fields shrinking message by message), read back only after all were " +
 			"restored; lruset.Set values reached by real NewSet/Visit/Evict/UpdateKey histories (incl. evicted-not-yet-visited ways); States HARVESTED from real workloads (random memasm " +
 			"assemblies agent -> [rob] -> caches -> ideal/banked/DRAM memory, State of a random component after a random number of engine " +
